@@ -3,9 +3,11 @@ from ..e1 import Harness
 
 PROP_ID = "C20"
 FEATURE = "c20"
-ENGINE = "E1 kani-cbmc"
-FUNCTIONS = ["edp_elixir_terms::ElixirRange::{is_empty,len,contains,into_iter}", "RangeIterator::{next,size_hint}"]
-ASSUMPTIONS = []
+ENGINE = "E1 kani-cbmc + E2 mir-smt"
+FUNCTIONS = ["edp_elixir_terms::ElixirRange::{is_empty,len,contains,into_iter}", "RangeIterator::{next,size_hint}",
+             "E2: MIR of ElixirDate/ElixirTime/ElixirNaiveDateTime/ElixirDateTime::from_term (map lookups and accessors as environment stubs)"]
+ASSUMPTIONS = ["E2 wrappers: BTreeMap::get / as_integer / as_2_tuple / as_map / elixir_struct_module are environment stubs returning arbitrary presence "
+               "and arbitrary i64 values; the claim is about what from_term does with them (narrowing casts), not about the map implementation"]
 OUTSIDE = ["exceptions, keyword/atom-key builders, derived struct mappings (string-heavy; no arithmetic)"]
 STEPS = {"any": 0, "p1": 1, "m1": -1, "p2": 2, "m3": -3, "p7": 7, "max": 9223372036854775807, "min": -9223372036854775808}
 
@@ -14,6 +16,21 @@ def bounds(tier):
     return {"range": "first, last, probe value: all i64; step: all i64 for overflow-freedom; agreement with the 128-bit "
                      "reference for step in %s (symbolic 128-bit division is out of CBMC's reach, see DESIGN)" % sorted(STEPS.values()),
             "iteration": "first 3 calls of next()"}
+
+
+def extra_checks(tier, seed):
+    from . import c20_e2
+    out = []
+    c20_e2.run(out)
+    return out
+
+
+def replay_case(case):
+    from . import c20_e2
+    e = case.get("e2") or {}
+    if "wrapper" in e:
+        return c20_e2.replay(e["wrapper"], e["args"])
+    return None
 
 
 def fn(name, body):
